@@ -108,3 +108,16 @@ macro_rules! show_debug { ($($t:ty),*) => { $(impl Show for $t { fn sv(&self) ->
 show_debug!(bool, char, u8, u16, u32, u64, i8, i16, i32, i64, i128, usize, isize, f32, f64, (), String, &'static str,
             Option<u8>, ::core::num::NonZeroU8, &'static u8, Vec<u8>);
 pub fn sv<T: Show>(x: &T) -> String { x.sv() }
+
+// ---- Debug oracles: a raw key (prints without quotes) and a method wrapper
+pub struct Raw(pub &'static str);
+impl fmt::Debug for Raw { fn fmt(&self, f: &mut fmt::Formatter<'_>) -> fmt::Result { f.write_str(self.0) } }
+pub struct Wm<'a, T: Val>(pub &'a T);
+impl<'a, T: Val> fmt::Debug for Wm<'a, T> { fn fmt(&self, f: &mut fmt::Formatter<'_>) -> fmt::Result { m_fmt(self.0, f) } }
+/// formats through a closure (the oracle's own `fmt`)
+pub struct Fm<F: Fn(&mut fmt::Formatter<'_>) -> fmt::Result>(pub F);
+impl<F: Fn(&mut fmt::Formatter<'_>) -> fmt::Result> fmt::Debug for Fm<F> {
+    fn fmt(&self, f: &mut fmt::Formatter<'_>) -> fmt::Result { (self.0)(f) }
+}
+impl<const K: u8> From<C<K>> for A<K> { fn from(c: C<K>) -> Self { A(c.0) } }
+impl<const K: u8> Show for &'static A<K> { fn sv(&self) -> String { format!("&A{}:{}", K, self.0) } }
